@@ -35,7 +35,7 @@ class Contract:
     def __init__(self, key, types=None, returns=None, requires=(), ensures=(), modifies=(), raises=None,
                  decreases=None, ghost_exit=None, bitvector=None, pure=False, variants=None, notes="",
                  kwargs_types=None, havoc_result=True, max_paths=400, loops=None, allow_global_writes=(),
-                 hint_terms=()):
+                 hint_terms=(), use_lemmas=()):
         self.key = key
         self.types = dict(types or {})
         self.returns = returns
@@ -53,6 +53,7 @@ class Contract:
         self.loops = loops or {}
         self.allow_global_writes = allow_global_writes
         self.hint_terms = list(hint_terms)
+        self.use_lemmas = use_lemmas if isinstance(use_lemmas, dict) else {"": list(use_lemmas)}
 
     @property
     def short(self):
@@ -198,6 +199,10 @@ class Registry:
         return h(eng, [base] + list(args), kw, node)
 
     def special_index(self, eng, c, idx, node):
+        if c.tag == "kwargs" and isinstance(idx, Conc):
+            if idx.v in c.items:
+                return c.items[idx.v]
+            raise RaiseSig("KeyError")
         h = self.ext.get("index.%s" % c.tag)
         if h is None:
             raise Unsupported("index into %s" % c.tag)
